@@ -350,7 +350,10 @@ class DetectReadsWritesCalls( DetectVarNames ):
 
   def visit_Attribute( self, node ): # s.a.b
     obj_name, nodelist = self._get_full_name( node )
-    if not obj_name:  return
+    if not obj_name:
+      # e.g. concat( s.a, s.b ).nbits: the signals are read inside
+      self.generic_visit( node )
+      return
 
     pair = (obj_name, nodelist, self.current_op)
 
@@ -383,6 +386,9 @@ class DetectReadsWritesCalls( DetectVarNames ):
     obj_name, nodelist = self._get_full_name( node.func )
     if obj_name:
       self.calls.append( (obj_name, nodelist, None) )
+    else:
+      # e.g. sext( s.a, 8 ).int(): the signals are read inside
+      self.visit( node.func )
 
     # Signals may be read in positional and in keyword arguments
     for x in node.args:
